@@ -56,7 +56,11 @@ func c06Setup(r *rand.Rand, shape string) []*eng.Op {
 	case "install-only":
 		return []*eng.Op{mk("install", 1)}
 	case "deployed3":
-		return []*eng.Op{mk("install", 1), mk("upgrade", 2), mk("upgrade", 3)}
+		last := mk("upgrade", 3)
+		if r.Intn(2) == 0 {
+			last.Hooks = c06HooksEveryEvent(r)
+		}
+		return []*eng.Op{mk("install", 1), mk("upgrade", 2), last}
 	case "failed-last":
 		f := mk("upgrade", 3)
 		f.WaitFail = true
@@ -238,7 +242,9 @@ func c06AllEventHooks() []eng.Hook {
 func (*c06) Corpus() []any {
 	var out []any
 	setup := func() []*eng.Op {
-		return []*eng.Op{c06Mk("install", 1, eng.Flags{}, "a"), c06Mk("upgrade", 2, eng.Flags{}, "a", "b"), c06Mk("upgrade", 3, eng.Flags{}, "a", "b")}
+		last := c06Mk("upgrade", 3, eng.Flags{}, "a", "b")
+		last.Hooks = c06AllEventHooks() // the deployed revision has a hook on every event
+		return []*eng.Op{c06Mk("install", 1, eng.Flags{}, "a"), c06Mk("upgrade", 2, eng.Flags{}, "a", "b"), last}
 	}
 	for _, b := range []string{"secret", "memory"} {
 		for _, s := range append(append([]c06Spelling{}, c06DrySpellings...), c06Controls...) {
@@ -270,6 +276,14 @@ func (*c06) Corpus() []any {
 		w.Hooks = c06AllEventHooks()
 		out = append(out, c06Case{Backend: b, Shape: "empty", Op: w,
 			Wide: &c06Wide{CRDs: true, Notes: true, Subchart: true, PostRender: true, CreateNamespace: true}})
+	}
+	// `helm template` through pkg/cmd, with and without --validate, on a populated history
+	for _, v := range []bool{false, true} {
+		tp := c06Mk("install", 7, eng.Flags{DryRun: true}, "a", "c")
+		tp.Hooks = c06AllEventHooks()
+		out = append(out, c06Case{Backend: "secret", Setup: setup(), Shape: "deployed3", Op: tp,
+			Wide:     &c06Wide{CRDs: true, Notes: true, Subchart: true},
+			Template: &c06Template{Validate: v, Args: []string{"--create-namespace", "--atomic", "--take-ownership"}}})
 	}
 	return out
 }
